@@ -303,3 +303,75 @@ Example c01_div_boundary :
   teval [VI32 4294967289; VI32 2] t_mod_i32 = Done (VI32 4294967295) /\
   teval [VI32 2147483648; VI32 4294967295] t_mod_i32 = Done (VI32 0).
 Proof. unfold in32, M32. repeat split; try Lia.lia; vm_compute; reflexivity. Qed.
+
+
+(* ==== statement level: the control-flow ENCODINGS (coq/Target/*.v) =========================================
+   Theorems for ALL bodies / continuing blocks / conditions / states / fuels about the fixed ways in which naga
+   encodes structured control flow, over the generic structured language of Target/Structured.v whose semantics IS
+   the IR reference interpreter (c01_ir_interpreter_is_generic: exact equality with IR/Sem.v) and whose rules are
+   those of the target interpreters (Target/GlslInstance.v).  Tied to /repo on every run by the recogniser
+   Target/Shapes.v (tool cfshape) over every emitted text: a loop or switch outside the proved shapes is reported. *)
+Require Import Naga.Target.Structured Naga.Target.LoopInit Naga.Target.LoopBound Naga.Target.ContinueForward
+        Naga.Target.SwitchForms Naga.Target.Desugar Naga.Target.IrInstance Naga.Target.GlslInstance Naga.Target.Examples.
+
+(* IR/Sem.v's interpreter is the generic interpreter on the translation IrInstance.tr: exact equality, all fuels *)
+Theorem c01_ir_interpreter_is_generic : forall (m : Naga.IR.Syntax.module) (f : Naga.IR.Syntax.func) (n : nat),
+  (forall b fr mem, conv (Naga.IR.Sem.exec_block n m f b fr mem) = run_block n (tr_b m f b) (fr, mem)) /\
+  (forall s fr mem, conv (Naga.IR.Sem.exec_stmt n m f s fr mem) = run_stmt n (tr m f s) (fr, mem)) /\
+  (forall cs fr mem, conv (Naga.IR.Sem.exec_cases n m f cs fr mem) = run_cases n (tr_c m f cs) (fr, mem)) /\
+  (forall body cont brk fr mem,
+     conv (Naga.IR.Sem.exec_loop n m f body cont brk fr mem) =
+     run_loop n (tr_b m f body) (tr_b m f cont)
+              (match brk with Some h => Some (bool_of m f "break if: not a bool" h) | None => None end) (fr, mem)).
+Proof. exact ir_is_generic. Qed.
+Print Assumptions c01_ir_interpreter_is_generic.
+
+(* and the translated statements satisfy the monotonicity hypothesis of every encoding theorem *)
+Theorem c01_ir_translation_monotone : forall m f b, mono_b (tr_b m f b).
+Proof. exact tr_b_mono. Qed.
+Print Assumptions c01_ir_translation_monotone.
+
+(* lowering: while (c) body / for (init; c; upd) body  ->  Loop { [if c {} else {break}; Block body]; upd; none },
+   exact fuel relation in both directions *)
+Theorem c01_while_desugar_equiv :
+  forall (state R : Type) (c : cond state) (body upd : list (Structured.stmt state R)),
+  mono_b body -> mono_b upd ->
+  forall (n : nat) (st : state) (r : Structured.outcome R * state),
+  (run_stmt n (While c body upd) st = Done r -> run_stmt (4 + n)%nat (lowered c body upd) st = Done r) /\
+  (run_stmt n (lowered c body upd) st = Done r -> run_stmt n (While c body upd) st = Done r).
+Proof.
+  intros state R c body upd Mb Mu n st r. split.
+  - exact (while_desugar_forward state R c body upd Mb Mu n st r).
+  - exact (while_desugar_converse state R c body upd Mb n st r).
+Qed.
+Print Assumptions c01_while_desugar_equiv.
+
+Theorem c01_for_desugar_equiv :
+  forall (state R : Type) (c : cond state) (body upd : list (Structured.stmt state R)),
+  mono_b body -> mono_b upd ->
+  forall (init : list (Structured.stmt state R)) (st : state) (r : Structured.outcome R * state),
+  mono_b init ->
+  (evals_b (init ++ While c body upd :: nil)%list st r <-> evals_b (init ++ lowered c body upd :: nil)%list st r).
+Proof. exact for_desugar_equiv. Qed.
+Print Assumptions c01_for_desugar_equiv.
+
+(* a && b  ->  if a { sb; t = b } else { t = false }      a || b  ->  if !a { sb; t = b } else { t = true } *)
+Theorem c01_short_circuit_equiv :
+  forall (state R : Type) (T : lens state bool) (a b : cond state) (sb : list (Structured.stmt state R)),
+  mono_b sb ->
+  forall st X : state,
+  (evals_s (and_enc T a b sb) st (Structured.ONormal, X) <->
+   (exists (v : bool) (s' : state), sc_spec a b sb false st v s' /\ X = lset T v s')) /\
+  (evals_s (or_enc T a b sb) st (Structured.ONormal, X) <->
+   (exists (v : bool) (s' : state), sc_spec a b sb true st v s' /\ X = lset T v s')).
+Proof.
+  intros state R T a b sb M st X. split; [exact (short_circuit_and state R T a b sb M st X)|exact (short_circuit_or state R T a b sb M st X)].
+Qed.
+Print Assumptions c01_short_circuit_equiv.
+
+Example c01_desugar_nonvacuous :
+  mono_b ex_wbody /\ mono_b ex_cont /\
+  run_stmt 40 (While c_lt5 ex_wbody ex_cont) ex_start = Done (Structured.ONormal, mkx 5 6 true (7, 7)%Z) /\
+  run_stmt 44 (lowered c_lt5 ex_wbody ex_cont) ex_start = Done (Structured.ONormal, mkx 5 6 true (7, 7)%Z).
+Proof. exact (conj ex_mono_wbody (conj ex_mono_cont (conj ex_while_run ex_lowered_run))). Qed.
+
